@@ -7,6 +7,7 @@ import DimodProofs.ReduceGiven
 import DimodProofs.HocOptions
 import DimodProofs.HocRecord
 import DimodProofs.PolyObject
+import Generated.PolyState
 
 /-! # C15 — higher-order reduction is exact on consistent assignments; the penalty is never negative
 
@@ -1463,5 +1464,14 @@ example : (objectAfter .binary [([.str "a", .str "b", .str "c"], 1), ([.str "a",
 example : (applyOp [([.int 0, .int 1], (1 : Rat))] (.delItem [.int 2])).toOption = none
     ∧ (applyOp [([.int 0, .int 1], (1 : Rat))] (.addItem [.int 1, .int 0] 2)).toOption = some [([.int 0, .int 1], 3)] := by
   decide +kernel
+
+/-- **the term dict is the whole state** (regenerated from the source by `harness/translators/c15_poly_state.py`): a
+    `BinaryPolynomial` stores nothing but `_terms` and `vartype` (no per-object or class-level cache, no memoising decorator), and
+    the reductions of `dimod/higherorder/utils.py` use nothing of the polynomial argument but `items()`, `variables`, `vartype` (and
+    iteration), and keep no module-level container: `Red.PolyState` models all of it, and a reduction after a history depends on the
+    current terms only -/
+theorem polynomial_object_state_is_terms_and_vartype :
+    Generated.PolyState.instanceAttributes = ["_terms", "vartype"]
+    ∧ Generated.PolyState.reductionUses = ["items", "variables", "vartype"] := by decide
 
 end C15
